@@ -33,19 +33,20 @@ def fini_mp(processes, t_fetch):
     t_fetch.join()
 
 
-def producer(res, q_in, q_internal, num_processors, predicate):
+def producer(res, q_in, q_internal, num_processors, predicate, errors):
     try:
         for row in res:
             if predicate(row):
                 q_in.put(row)
             else:
                 q_internal.put(row)
+    except Exception as e:
+        errors.append(e)
+    finally:
+        # always release the workers: the fetcher signals the end once they are all done
         for _ in range(num_processors):
             q_in.put(None)
-    except Exception:
-        q_internal.put(None)
-        return 1
-    return 0
+    return len(errors)
 
 
 def fetcher(q_out, q_internal, num_processors):
@@ -87,7 +88,9 @@ def fork(res, row_func, num_processors, predicate):
             res = itertools.chain([row], res)
             q_in = mp.Queue()
             q_internal = queue.Queue()
-            t_prod = threading.Thread(target=producer, args=(res, q_in, q_internal, num_processors, predicate))
+            errors = []
+            t_prod = threading.Thread(target=producer,
+                                      args=(res, q_in, q_internal, num_processors, predicate, errors))
             t_prod.start()
 
             processes, t_fetch = init_mp(num_processors, row_func, q_in, q_internal)
@@ -99,6 +102,8 @@ def fork(res, row_func, num_processors, predicate):
                 yield row
             t_prod.join()
             fini_mp(processes, t_fetch)
+            if errors:
+                raise errors[0]
         else:
             yield row
 
